@@ -1,4 +1,4 @@
-"""C07 — engine-level check: random Script workflows on the real SDK over several invocations (crashes,
+"""C07 — suspension sound and live.  Engine-level check: random Script workflows on the real SDK over several invocations (crashes,
 checkpoint faults, backend events, paginated histories) vs the Lean engine model, plus the C07
 oracles evaluated on the implementation's own traces (harness/comp_engine.py)."""
 from __future__ import annotations
@@ -11,6 +11,10 @@ META = comp_engine.meta("C07")
 def run(ctx):
     comp_engine.run(ctx, "C07", **comp_engine.PARAMS.get("C07", {}))
     comp_engine.extra(ctx, "C07")
+    # map / parallel: the executor suspends only when every branch is parked, picks the earliest timer, resumes
+    # timed branches in-process, and every execution terminates (executor theorems C07X_*)
+    from harness import comp_executor
+    comp_executor.run_prop(ctx, "C07", n_quick=150, n_thorough=4000)
 
 
 def search(ctx):
@@ -18,4 +22,8 @@ def search(ctx):
 
 
 def replay(ctx, rec):
-    comp_engine.replay(ctx, rec, "C07")
+    if "blocks" in (rec["case"].get("scenario") or {}):
+        from harness import comp_executor
+        comp_executor.replay(ctx, rec, "C07")
+    else:
+        comp_engine.replay(ctx, rec, "C07")
